@@ -10,12 +10,13 @@
   errors) accepts; (2) the pieces that statement rests on, as separate readable theorems; (3) finite
   classification tables over all attribute type codes and all flag octets; (4) a session reset can only come from
   the section lengths, a repeated MP attribute or the NLRI.
-  What is NOT proved: that the byte-level checker `USpec.check` (valid UPDATE + corruption list ↦ expected
-  outcome) accepts the model on every rendered case — that is `check_run_ok_full` below, a statement only; it is
-  evaluated as the oracle on the real code (and thereby, by the correspondence diff, on the model) for every
-  generated case.  The end-to-end half (RIB contents after `rx_msg`) is out of scope of this version.
+  (5) byte level (`check_run_ok_full`, proof in `Rbgp.Wire.UpdateFull`): for every valid UPDATE and corruption list
+  of the case language (`USpec.wfCase`), the byte-level reference checker `USpec.check` accepts what the model makes
+  of the rendered bytes.
+  What is NOT proved: anything about families other than IPv4/IPv6 unicast/multicast in the case language; the
+  end-to-end half (RIB contents after `rx_msg`) is out of scope of this version.
 -/
-import Rbgp.Wire.UpdateProofs
+import Rbgp.Wire.UpdateFull
 namespace Rbgp.Wire.UProps
 open Rbgp.Wire Rbgp.Wire.USpec
 
@@ -38,10 +39,13 @@ theorem validate_check_ok (ebgp : Bool) (reach mpReach : Option Reach) (unreach 
       (validateUpdate ebgp reach mpReach unreach mpUnreach attrs errs) = .ok :=
   Rbgp.Wire.validate_check_ok ebgp reach mpReach unreach mpUnreach attrs errs hb hd
 
-/-- the full-strength byte-level statement (NOT proved; checked as the oracle on every generated case) -/
-def check_run_ok_full : Prop :=
-  ∀ (dec : HypDec), dec.NP → ∀ (p : Profile) (c : Codec) (ebgp : Bool) (u : CUpdate) (cs : List Corr),
-    USpec.check c ebgp u cs (runUpdate dec p c ebgp (render c u cs)) = .ok
+/-- byte-level master theorem: for EVERY codec, profile, peer kind, valid UPDATE `u` and corruption list `cs`, the
+    byte-level reference checker `USpec.check` (valid UPDATE + RFC 7606 corruptions ↦ allowed outcomes) accepts what
+    the model (`try_parse`, then `validate_message`) makes of the rendered bytes.  `dec` stands for the NLRI decoders
+    of families other than IPv4/IPv6 unicast/multicast, which a `wfCase` case does not use. -/
+theorem check_run_ok_full (dec : HypDec) (hd : dec.NP) (p : Profile) (c : Codec) (ebgp : Bool) (u : CUpdate)
+    (cs : List Corr) : USpec.check c ebgp u cs (runUpdate dec p c ebgp (render c u cs)) = .ok :=
+  Rbgp.Wire.check_run_ok dec hd p c ebgp u cs
 
 /-! ## 1. treat-as-withdraw: no route announced, every announced prefix withdrawn -/
 
@@ -181,5 +185,26 @@ theorem nonvacuous_discard :
     tryParse noHypDec .debug codecV4 (render codecV4 uMed [.data 4 [0, 0, 5]]) =
       .msg 52 (.update (some ⟨65537, some [10, 0, 0, 1], [⟨0, 8, [10, 0, 0, 0]⟩]⟩) none none none
         [⟨1, 0x40, .val 0⟩, ⟨2, 0x40, .bin []⟩, ⟨8, 0xc0, .bin [255, 255, 255, 1]⟩] [(4, 0x80)]) := by decide
+
+/-- `check_run_ok_full` is not vacuous: cases of each kind are well formed (so the checker judges them), and the
+    checker rejects wrong outcomes for them (a route announced although treat-as-withdraw is required; a malformed
+    MED kept; the second copy of a duplicated MED believed; a reset although the NLRI can be located) -/
+theorem nonvacuous_full :
+    wfCase codecV4 uOk [.flags 3 0x80] = true ∧ wfCase codecV4 uMed [.data 4 [0, 0, 5]] = true ∧
+    wfCase codecV4 uMed [.dup 4 [0, 0, 0, 6]] = true ∧ wfCase codecV4 uOk [.trunc 3] = true ∧
+    wfCase codecV4 uOk [.omit 0, .unknown 0x40 77 [1]] = true ∧
+    USpec.check codecV4 false uOk [.flags 3 0x80]
+      (.ok [.reach 65537 (some [10, 0, 0, 1]) [⟨0, 8, [10, 0, 0, 0]⟩] [⟨1, 0x40, .val 0⟩, ⟨2, 0x40, .bin []⟩]]) =
+      .fail "route-announced-although-an-attribute-error-requires-treat-as-withdraw" ∧
+    USpec.check codecV4 false uMed [.data 4 [0, 0, 5]]
+      (.ok [.reach 65537 (some [10, 0, 0, 1]) [⟨0, 8, [10, 0, 0, 0]⟩]
+        [⟨1, 0x40, .val 0⟩, ⟨2, 0x40, .bin []⟩, ⟨4, 0x80, .val 5⟩]]) =
+      .fail "malformed-attribute-kept-on-an-announced-route" ∧
+    USpec.check codecV4 false uMed [.dup 4 [0, 0, 0, 6]]
+      (.ok [.reach 65537 (some [10, 0, 0, 1]) [⟨0, 8, [10, 0, 0, 0]⟩]
+        [⟨1, 0x40, .val 0⟩, ⟨2, 0x40, .bin []⟩, ⟨4, 0x80, .val 6⟩]]) =
+      .fail "duplicate-attribute-believed-instead-of-the-first" ∧
+    USpec.check codecV4 false uOk [.flags 3 0x80] (.reset ⟨3, 4, []⟩) =
+      .fail "session-reset-although-the-nlri-can-be-located-and-parsed" := by decide
 
 end Rbgp.Wire.UProps
